@@ -62,6 +62,7 @@ KINDS: Dict[str, KindInfo] = {k.name: k for k in [
     KindInfo("SET", set),
     KindInfo("RANGE", range),       # a Sequence that is neither list, tuple, str nor UserList
     KindInfo("BYTES", bytes),
+    KindInfo("SLICE", slice),
     KindInfo("VERSION", object),    # packaging.version.Version
     KindInfo("CALLABLE", type(len)),
     KindInfo("OTHER", object),
@@ -73,7 +74,7 @@ NODE_KINDS: FrozenSet[str] = frozenset(
     {"STR", "JSXEXPR", "HTMLSTR", "TAG", "META", "HTMLDEP", "JSXTAG", "REPR_ONLY", "TAGIFIABLE_ONLY",
      "TAGIFIABLE_REPR", "TAGLIST"})
 META_KINDS: FrozenSet[str] = frozenset({"META", "HTMLDEP"})
-ANY_VALUE_KINDS: FrozenSet[str] = ALL_KINDS - {"TAGATTRDICT", "JSXATTRDICT", "HTMLDOC", "CALLABLE", "VERSION", "BYTES"}
+ANY_VALUE_KINDS: FrozenSet[str] = ALL_KINDS - {"TAGATTRDICT", "JSXATTRDICT", "HTMLDOC", "CALLABLE", "VERSION", "BYTES", "SLICE"}
 
 _ABCS = {
     "Sequence": collections.abc.Sequence, "Mapping": collections.abc.Mapping, "Iterable": collections.abc.Iterable,
@@ -85,7 +86,7 @@ _ABCS = {
 }
 _BUILTIN_TYPES = {"str": str, "int": int, "float": float, "bool": bool, "dict": dict, "list": list, "tuple": tuple,
                   "set": set, "frozenset": frozenset, "bytes": bytes, "object": object, "range": range,
-                  "complex": complex, "type": type}
+                  "complex": complex, "type": type, "slice": slice}
 
 
 class TypeRef:
